@@ -62,10 +62,14 @@ impl<A: AcceptableMasterList, C: Clock, F: Filter, R: Rng, S: PtpInstanceStateMu
                             return true;
                         }
 
-                        // Cannot panic as `list` is large enough to contain up to a whole message
+                        // The general socket accepts frames larger than an announce we can
+                        // send, so a received path can be longer than the list. A path
+                        // that long cannot be extended and forwarded anyway; keep what fits.
+                        let capacity = path_trace_ds.list.capacity();
                         path_trace_ds.list = tlv
                             .value
                             .chunks_exact(8)
+                            .take(capacity)
                             .map(|ci| ClockIdentity(<[u8; 8]>::try_from(ci).unwrap()))
                             .collect();
                     }
